@@ -56,6 +56,7 @@ def gen(rng, isa, script=None, load_via=None):
     store_txt = store_fmt % opnd(B, I, S, D)
     lines.append(store_txt)
     killed = False
+    kill_lines = []
     if script is not None:
         I, S = None, 1
         lines[0] = store_txt = store_fmt % opnd(B, None, 1, D)
@@ -104,7 +105,10 @@ def gen(rng, isa, script=None, load_via=None):
         else:
             # a second store to the very same operand text ends the first store's search
             if all(env[r] == (r, 0) for r in [B] + ([I] if I else [])):
-                lines.append(store_txt)
+                # ... also when it is a store of ANOTHER kind (plain store vs read-modify-write) to the textually identical operand
+                kill_fmt = rng.choice(["movq %%rdx, %s", "addq %%rdx, %s", "subq $1, %s", "movq %%r11, %s"]) if isa == "x86" else rng.choice(["str x9, %s", "str x11, %s"])
+                kill_lines.append(len(lines))
+                lines.append(kill_fmt % opnd(B, I, S, D))
                 killed = True
                 # "in between" now means between THIS store and the load: copies made earlier are not tracked
                 env = {r: (r, 0) for r in regs}
@@ -141,7 +145,7 @@ def gen(rng, isa, script=None, load_via=None):
             eq = (D or 0) == (D2 or 0) + env[B2][1]
         elif env[I2] and env[I2][0] == I and S2 == S:
             eq = (D or 0) == (D2 or 0) + env[B2][1] + env[I2][1] * S
-    return "\n".join(lines) + "\n", {"equal": eq, "killed": killed, "store_copies": [i for i, l in enumerate(lines) if l == store_txt],
+    return "\n".join(lines) + "\n", {"equal": eq, "killed": killed, "store_copies": sorted(set([i for i, l in enumerate(lines) if l == store_txt] + kill_lines)),
                                      "n": len(lines), "env": {k: v for k, v in env.items()}, "store": (B, I, S, D), "load": (B2, I2, S2, D2)}
 
 
@@ -273,7 +277,7 @@ def run(ctx):
                 if abs(links[live] - (lat + case["fwd"])) > 1e-12:
                     ctx.violation("store-load-edge-weight", "%s: store->load edge weighs %s, store latency %s + forwarding %s"
                                   % (arch, links[live], lat, case["fwd"]), rep)
-            if info["killed"] and first in links and first != live:
+            if info["killed"] and any(st in links for st in stores[:-1]):
                 hist["killed"] += 1
                 ctx.violation("store-load-edge-after-later-store", "%s: a later store to the same operand did not end the search: %s"
                               % (arch, text.replace("\n", " ; ")), rep)
